@@ -3,7 +3,10 @@
 package vals
 
 import (
+	"errors"
 	"fmt"
+	"math/big"
+	"net/url"
 	"sort"
 	"strconv"
 	"time"
@@ -200,6 +203,51 @@ func (v V) Go() any {
 		return func() {}
 	case "chan":
 		return make(chan int)
+	// values whose string form comes from a method with a POINTER receiver (or an interface)
+	case "url":
+		u, err := url.Parse(v.S)
+		if err != nil {
+			u = &url.URL{Path: v.S}
+		}
+		return u
+	case "bigint":
+		n, ok := new(big.Int).SetString(v.S, 10)
+		if !ok {
+			n = big.NewInt(0)
+		}
+		return n
+	case "err":
+		return errors.New(v.S)
+	case "map*url":
+		out := make(map[string]*url.URL, len(v.M))
+		for k, e := range v.M {
+			out[k] = V{K: "url", S: e.S}.Go().(*url.URL)
+		}
+		return out
+	case "maperr":
+		out := make(map[string]error, len(v.M))
+		for k, e := range v.M {
+			out[k] = errors.New(e.S)
+		}
+		return out
+	case "map*big":
+		out := make(map[string]*big.Int, len(v.M))
+		for k, e := range v.M {
+			out[k] = V{K: "bigint", S: e.S}.Go().(*big.Int)
+		}
+		return out
+	case "[]*url":
+		out := make([]*url.URL, len(v.L))
+		for i, e := range v.L {
+			out[i] = V{K: "url", S: e.S}.Go().(*url.URL)
+		}
+		return out
+	case "[]err":
+		out := make([]error, len(v.L))
+		for i, e := range v.L {
+			out[i] = errors.New(e.S)
+		}
+		return out
 	}
 	panic("vals: unknown kind " + v.K)
 }
